@@ -40,10 +40,18 @@ CATALOGUE = ["{{a|b=c}}", "[[a|b]]", "<b a=\"c\">x</b>", "&amp;&#x41;&#65;", "==
              "{{a|\n==h==\n}}", "==a==b==\n", "=a=", "======a======", "== a\n", "&nbsp;&foo;&#xZ;&thetasym;", "<span style=\"a\" />", "<a<b>c</b>", "<b>c</a></b>",
              "<b>''c</b>''", "{{a<b>}}</b>", "<ref>{{a}}</ref>", "<div\nclass=a\n>b</div\n>", "{{" * 20 + "a" + "}}" * 20, "{{foo|{{b}}{{c}}=d}}",
              "<a\x00b>x</a\x00b>", "</b\x00r >", "<b\x00>", "<br\x00/>", "ht\x00tp://a.b", "[ht\x00tp://a.b c]", "<nowiki\x00>x</nowiki\x00>", "&#\u0661;",
-             "<\u00e9>x</\u00e9>", "</\u00e9 >", "<b\u0130>x</b\u0130>"]
+             "<\u00e9>x</\u00e9>", "</\u00e9 >", "<b\u0130>x</b\u0130>",
+             "[http://a.com [[http://b.com]]]", "[http://a [[//b c]] d]", "[http://a [[b]] [[c|d]] e]", "[[http://a [[http://b c]] d]]", "http://a.b" + "." * 120 + " c",
+             "x http://a.b/c" + ",;:!?" * 40, "[http://a.b c" + "]" * 3, "{{a|http://b.c|d=e}}", "{{{a|http://b.c/}}d}}}", "{|\n| {{a\n|b}} | c\n|}", "{|\n|-\n|- a=b\n|}"]
 
 
 NCAT = len(CATALOGUE) * 6
+
+
+def ncat(tier):
+    """the items the leak leg always measures: the catalogue and the nesting pairs"""
+    import tokprops
+    return NCAT + (240 if tier == "quick" else len(tokprops.WRAPPERS) * len(tokprops.ATOMS))
 
 
 def items(tier, seed):
@@ -57,6 +65,12 @@ def items(tier, seed):
         for w in range(3):
             out.append(("tok", widen(t, w)))
             out.append(("inj", widen(t, w)))
+    # every construct inside every construct (tokprops.WRAPPERS x ATOMS): a seed-dependent sample in the quick tier, all in the thorough one
+    pairs = [w % a for w in tokprops.WRAPPERS for a in tokprops.ATOMS]
+    if tier == "quick":
+        pairs = rng.sample(pairs, 240)
+    for i, t in enumerate(pairs):
+        out.append(("tok", widen(t, i % 3)))
     tab = tokprops.table_inputs()
     step = 1 if tier == "thorough" else 3
     for i, t in enumerate(tab):
@@ -306,7 +320,7 @@ def main():
         its = items(tier, seed)
         if mode == "leak":
             its = [x for x in its if x[0] != "shim"]
-            its = its[:NCAT] + its[NCAT::(9 if tier == "quick" else 3)]
+            its = its[:ncat(tier)] + its[ncat(tier)::(9 if tier == "quick" else 3)]
         r = run_item(st, mode, its[idx])
         print(json.dumps(r)[:2000])
         return 1 if (r.get("fails") or r.get("bad")) else 0
@@ -318,7 +332,7 @@ def main():
     its = items(tier, seed)
     if mode == "leak":
         its = [x for x in its if x[0] != "shim"]
-        its = its[:NCAT] + its[NCAT::(9 if tier == "quick" else 3)]
+        its = its[:ncat(tier)] + its[ncat(tier)::(9 if tier == "quick" else 3)]
     stats = {"tok": 0, "inj": 0, "shim": 0, "aborted_calls": 0, "leak-tok": 0, "leak-inj": 0}
     shim_out = []
     dbg_leg = os.environ.get("C07_LEG") == "dbg"
